@@ -373,6 +373,7 @@ func TestC05(t *testing.T) {
 
 	rapidCheck(t, "C05/read", tier(3000, 200000), func(rt *rapid.T) {
 		c := c05ReadCase{Doc: genSTLDoc(rt, false), IgnoreTCP: rapid.Bool().Draw(rt, "ignore")}
+		addRecodes(rt, &c.Doc)
 		nt, ls := c05Labels(c.Doc)
 		ev.Case(nt, fmt.Sprintf("r%v", c), append(ls, "read")...)
 		if nt && len(c.Doc.Cues) <= 2 {
